@@ -511,6 +511,7 @@ def fold_phi(fo, t):
     return fo.ev(t)
 
 
+@shared_rule
 def queue_modes_rule(F, R, M, rule, prefixes):
     """H3 under another property's rule id, restricted to the drivers with the given path prefixes: each queue is constructed
     with indirect / event-index / access-platform = contains(negotiated features, bit 28 / 29 / 33), in that order."""
